@@ -58,14 +58,14 @@ func init() {
 	}
 	Props["C09"] = &PropSpec{
 		Level:       "other",
-		Rules:       []string{"R21", "R22", "R05", "R08", "R02", "R03", "R14"},
+		Rules:       []string{"R21", "R22", "R05", "R08", "R02", "R03", "R14", "R43"},
 		Explanation: "For all polygons, flags and grids: every quotient feeding the outside-grid range check has a numerator proven non-negative by an earlier rejection (R21; Go's / truncates toward zero, the F2 defect class); every vertex of every ring passes the range check before anything is stored or snapped (R05, R08); both axes and all four sides are treated alike (R02, R03); a failed check propagates unchanged and ends in panic or a fresh empty map with snapping unreachable, the quiet exit only for an OutsideGridError under IgnoreOutsideGrid, and the rejection error has exactly the dynamic type errors.As is asked for (R22, R14).",
 		Decided:     []string{"sound rejection on the left/bottom side (R21)", "range check before store, on all four sides, both axes (R08, R03, R02)", "rejection is final: panic or empty result (R22)", "the right option is consulted (R14)"},
 		NotDecided:  []string{"offsets below the 1e-10 integer resolution", "exact position of the right/top border on grids whose extent does not divide evenly"},
 	}
 	Props["C10"] = &PropSpec{
 		Level:       "other",
-		Rules:       []string{"R28", "R29", "R30", "R11", "R23", "R24", "R27", "R15p"},
+		Rules:       []string{"R28", "R29", "R30", "R11", "R23", "R24", "R27", "R15p", "R36"},
 		Explanation: "For all feature streams, target sets and schedules: dispatch by geometry type with a default arm forwarding the untouched geometry once per target; exactly one delivery per (feature, tile matrix present in the result) carrying the received feature, that key and the geometry of the same key; the router sends exactly once per received feature on the channel selected by its TileMatrixID (R28); the wrapper is transparent for columns and id (R29); multipolygon parts are merged per tile matrix and the merged result has no entry without geometry (R30); absent <=> no geometry (R11); the per-tile-matrix wrapper is written only at construction and the constructor returns a fresh value (R27). Per-target FIFO follows from single sender / single consumer per channel (R23, R24); 'only the geometry computed for that target' needs no in-place write to the shared column slice (R27); map order cannot change deliveries (R15p).",
 		Decided:     []string{"one delivery per feature and tile matrix, none for absent ones (R28, R11)", "attribute pass-through (R29)", "multipolygon merge (R30)", "order per target (R23, R24)", "no cross-target contamination through shared column storage (R27)"},
 		NotDecided:  []string{"correctness of the snapped geometry itself (C01-C09)", "nothing dynamic is sampled"},
